@@ -695,6 +695,7 @@ pub fn c13(tier: Tier, _seed: u64) -> Prop {
         units: {
             let mut u = c13_units(tier);
             u.push(super::realbin::c13_unit());
+            u.push(super::realbin::c13_socket_unit(tier == Tier::Thorough));
             u
         },
         extra: Box::new(|m| {
